@@ -28,7 +28,7 @@ PROPS = {
              "is redelivered, the session is continued (reconstructor on instrumented in-memory stores); d5f: the same "
              "at flash level through SlotManager/Updater on the NOR simulator (fault on each mutating SpiFlash op of each "
              "fragment, redelivery, completion, final check with exact image); d5fr: faults on any op incl. reads "
-             "(implementation oracle only)",
+             "(implementation oracle only); d5f also: sequences of up to 3 faulted fragments with up to 3 failures each",
         trusted=["crate bitvec / core as compiled"],
         assumptions=["a failed storage operation has no effect on the medium"],
     ),
@@ -66,7 +66,9 @@ PROPS = {
         rule="query = one row request (generator, M, N or matrix row index, cfg) answered by the Rust generator and by "
              "the Lean model, compared on the first ceil(M/8) row bytes (or PANIC); the oracle compares every row "
              "with an independent Rust transcription of TS004 matrix_line and checks bounds / non-emptiness / "
-             "force-full-r weight; `!sweep` lines (thorough) are oracle-only; distinct = distinct query text per cfg",
+             "force-full-r weight; with force-full-r the coded-fragment numbers that need the most PRBS draws (found with the "
+             "independent generator, for each M with many factors of 2) are queried explicitly; `!sweep` lines (thorough) "
+             "are oracle-only; distinct = distinct query text per cfg",
         trusted=["crate bitvec / core as compiled", "Lean kernel `decide` on 384-bit Nat literals (interop vectors)"],
         assumptions=["UpdaterMatrix is private: its index mapping is covered by the theorem updater_matrix_row and "
                      "end to end by D5 (the session model uses the same generator), not by D2",
@@ -192,7 +194,9 @@ PROPS = {
         rule="one scenario = device geometry (4..6 slots, slot size from the minimum upward, erase block dividing it), "
              "ring position (preceding completed / cancelled updates), image with valid CRC, fragment size incl. sizes "
              "straddling the 68-byte prefix, loss set up to and beyond capacity, delivery order (in order, shuffled, "
-             "coded first, duplicates, interleaved), number of coded fragments; compared per fragment: outcome and "
+             "coded first, duplicates, interleaved), number of coded fragments, coded-fragment numbers from 1 or late in the "
+             "transmission (around 2^14 - M, 8380/8381, 16000+), firmware-like contents (0xFF padding, zero / repeated / "
+             "FF-prefixed fragments), losses inside the 64 bytes the CRC does not cover; compared per fragment: outcome and "
              "counters; at the end: check result and digests of every slot; oracle: data region = image, validation, "
              "header, counters monotone / bounded / exact at completion",
         trusted=["crate bitvec / core as compiled"],
@@ -230,7 +234,8 @@ PROPS = {
              "status variants: `start` (placement / numbering / other slots untouched oracle), `bl_boot_status`, "
              "`app_boot_status` (resume-exactly-the-newest-pair / nothing else left in progress oracle), power loss at "
              "every mutating-operation boundary of `start` followed by the boot-time calls, and fragment indices swept "
-             "over the accepted range for 7 (fragment size, slot size) pairs with the in-slot oracle; one evaluation = "
+             "over the accepted range for 7 (fragment size, slot size) pairs with the in-slot oracle, rings whose in-progress "
+             "pair announces an image that does not fit the slot followed by writes at and beyond the slot end; one evaluation = "
              "one API call of original-flash-algo answered by the crate and by the Lean model (outcome, operation log, "
              "session fields, header words and region digests)",
         trusted=["crate bitvec / core as compiled"],
@@ -245,7 +250,11 @@ PROPS = {
              "then inside the bootloader / application marks, recovery (remediation), cancel-all and a start-over; after "
              "the reboot: validation sweep of every slot that reads as completed firmware (and comparison with the "
              "transmitted image for the session's slot), try_recover, bl_boot_status (designated slot must validate), "
-             "fallback_firmware, start_update, sweep again; every call under catch_unwind",
+             "fallback_firmware, start_update, sweep again; every call under catch_unwind; d5t: a torn program (or a "
+             "power loss) inside fragment handling, then reboot, recovery, the interrupted fragment again or lost, the rest "
+             "of the transmission, a full pass of the data and the final check, with all losses inside image bytes 4..68 "
+             "(outside the CRC) so that a wrongly rebuilt fragment shows as a wrongly completed image; failures are keyed "
+             "by the torn operation's site class",
         trusted=["crate bitvec / core as compiled"],
         assumptions=["erase is atomic per erase block; a torn program clears a byte prefix plus any subset of the bits "
                      "of one more byte", "erase-block size >= 28 bytes (header in the first block)"],
